@@ -52,6 +52,10 @@ def and_const(I, x, c):
         return x
     lz, nb = bits_of(x)
     xe = iexpr(x)
+    if c >= 0 and isinstance(x, SInt) and x.be is not None and len(x.be) > 1:
+        r = be_and_const(I, x, c)
+        if r is not None:
+            return r
     if c < 0:
         # x & c == x - (x & ~c), ~c >= 0
         m = ~c
@@ -138,6 +142,9 @@ def bor(I, a, b):
     # disjoint bit ranges: a | b == a + b  (holds for any integer on the side that is a multiple of 2**k)
     if nb_ is not None and nb_ <= la or na is not None and na <= lb:
         nn = None if (na is None or nb_ is None) else max(na, nb_)
+        r = be_add_disjoint(I, a, b)
+        if r is not None:
+            return r
         return I.sint(ae + be, min(la, lb), nn)
     c = band(I, a, b)
     nn = None if (na is None or nb_ is None) else max(na, nb_)
@@ -170,6 +177,10 @@ def shl(I, a, k):
     if k < 0:
         I.raise_py(ValueError, "negative shift count")
     la, na = bits_of(a)
+    if k % 8 == 0 and k and not isinstance(a, (int, bool)):
+        r = be_shl(I, a, k)
+        if r is not None:
+            return r
     return I.sint(iexpr(a) * (1 << k), la + k, None if na is None else na + k)
 
 
@@ -191,6 +202,10 @@ def shr(I, a, k):
     la, na = bits_of(a)
     if na is not None and na <= k:
         return 0
+    if k % 8 == 0 and isinstance(a, SInt) and a.be is not None:
+        r = be_shr(I, a, k)
+        if r is not None:
+            return r
     return I.sint(iexpr(a) / (1 << k), max(la - k, 0) if la < 10**5 else la, None if na is None else na - k)
 
 
@@ -273,3 +288,110 @@ def int_binop(I, op, a, b):
 
         return floats.truediv(I, a, b)
     raise Unsupported(f"integer operator {op.__name__}")
+
+
+# ----------------------------------------------------------------------------- octet decomposition
+
+
+def be_of(v):
+    """Big-endian octet list (z3 exprs / ints) of an int-like value, or None."""
+    if isinstance(v, bool):
+        v = int(v)
+    if isinstance(v, int):
+        if v < 0:
+            return None
+        n = max(1, (v.bit_length() + 7) // 8)
+        return [(v >> (8 * (n - 1 - i))) & 0xFF for i in range(n)]
+    if isinstance(v, SInt):
+        if v.be is not None:
+            return list(v.be)
+        if v.nb is not None and v.nb <= 8:
+            return [v.e]
+    if isinstance(v, SBool):
+        return [iexpr(v)]
+    return None
+
+
+def _is_zero(x):
+    return (isinstance(x, int) and x == 0) or (z3.is_int_value(x) and x.as_long() == 0)
+
+
+def from_be(I, be, lz=None, nb=None):
+    """SInt (or python int) from an octet list."""
+    be = list(be)
+    while len(be) > 1 and _is_zero(be[0]):
+        be.pop(0)
+    if all(isinstance(x, int) or z3.is_int_value(x) for x in be):
+        v = 0
+        for x in be:
+            v = v * 256 + (x if isinstance(x, int) else x.as_long())
+        return v
+    e = None
+    n = len(be)
+    for i, x in enumerate(be):
+        if _is_zero(x):
+            continue
+        sh = 8 * (n - 1 - i)
+        t = iexpr(x) * (1 << sh) if sh else iexpr(x)
+        e = t if e is None else e + t
+    tzb = 0
+    for x in reversed(be):
+        if _is_zero(x):
+            tzb += 8
+        else:
+            break
+    r = SInt(e, tzb if lz is None else lz, 8 * n if nb is None else nb, be)
+    return r
+
+
+def be_and_const(I, x, c):
+    """x & c through the decomposition (c >= 0); returns value or None if not applicable."""
+    be = be_of(x)
+    if be is None or c < 0:
+        return None
+    n = len(be)
+    out = []
+    for i, b in enumerate(be):
+        m = (c >> (8 * (n - 1 - i))) & 0xFF
+        if m == 0:
+            out.append(0)
+        elif m == 0xFF:
+            out.append(b)
+        elif isinstance(b, int):
+            out.append(b & m)
+        else:
+            r = and_const(I, SInt(b, 0, 8), m)
+            out.append(r if isinstance(r, int) else r.e)
+    return from_be(I, out, nb=min(8 * n, c.bit_length()))
+
+
+def be_shr(I, x, k):
+    be = be_of(x)
+    if be is None or k % 8:
+        return None
+    d = k // 8
+    if d >= len(be):
+        return 0
+    return from_be(I, be[: len(be) - d])
+
+
+def be_shl(I, x, k):
+    be = be_of(x)
+    if be is None or k % 8:
+        return None
+    return from_be(I, be + [0] * (k // 8))
+
+
+def be_add_disjoint(I, a, b):
+    """a + b where b fits into a's trailing zero octets."""
+    ba, bb = be_of(a), be_of(b)
+    if ba is None or bb is None:
+        return None
+    if len(bb) > len(ba):
+        ba, bb = bb, ba
+    while len(bb) > 1 and _is_zero(bb[0]):
+        bb = bb[1:]
+    k = len(bb)
+    if not all(_is_zero(x) for x in ba[len(ba) - k :]):
+        return None
+    return from_be(I, ba[: len(ba) - k] + bb)
